@@ -574,6 +574,10 @@ class Evaluator:
                 self.lets.append((name, f'filter_clear_current_flag {st}'))
                 rebind(name)
                 return True
+            if meth == 'setup_seen_zero' and len(args) == 3:
+                self.lets.append((name, f'filter_setup_seen_zero {st} {at}'))
+                rebind(name)
+                return True
             if meth == 'should_record' and len(args) == 4:
                 self.lets.append((name, f'filter_should_record {st} {self.fuel} {at}'))
                 rebind(f'{name}.1')
@@ -582,6 +586,8 @@ class Evaluator:
         # wind sock
         w = {k[len(obj) + 1:]: v for k, v in env.items() if k.startswith(obj + '.')}
         st = sock_state({'self.' + k: v for k, v in w.items()}, False).replace('maxDist := ws.maxDist', 'maxDist := l.ws.maxDist')
+        if meth == 'current_vector' and not args:
+            return env[f'{obj}._last_vector_cache']
         if meth == 'vector_for_range' and len(args) == 1:
             self.lets.append((name, f'sock_vector_for_range {st} {at}'))
             env[f'{obj}.winds'], env[f'{obj}.current'] = SymArr(f'{name}.1.winds'), IntSym(f'{name}.1.current')
@@ -623,6 +629,15 @@ class Evaluator:
             r = self.obj_call(d, e, env, stmt=False)
             if r is not None:
                 return r
+        if d == '_WindSock' and self.compose_rows and len(args) == 1 and not kw and isinstance(args[0], SymArr):
+            name = f'o{len(self.lets) + 1}'
+            self.lets.append((name, f'sock_init {args[0].s} cMaxWindDistanceFeet'))
+            return Obj('_WindSock', {'__let__': name})
+        if d == '_TrajectoryDataFilter' and self.compose_rows and not args and set(kw) == {'filter_flags', 'range_step', 'initial_position', 'initial_velocity', 'time_step'}:
+            name = f'o{len(self.lets) + 1}'
+            v3 = lambda v: f'⟨{num(v.x)}, {num(v.y)}, {num(v.z)}⟩'   # noqa: E731
+            self.lets.append((name, f'filter_init {kw["filter_flags"].s} {num(kw["range_step"])} {v3(kw["initial_position"])} {v3(kw["initial_velocity"])} {num(kw["time_step"])}'))
+            return Obj('_TrajectoryDataFilter', {'__let__': name})
         if d == 'create_trajectory_row' and self.compose_rows and len(args) == 11 and not kw:
             at = []
             for a in args:
@@ -962,6 +977,17 @@ class Evaluator:
         env[var] = Num(f'(whileF (fun z => {c.as_bool()}) (fun z => {num(e2[var])}) {self.fuel} {num(init)})')
 
     def assign(self, t, v, env):
+        if isinstance(t, ast.Name) and isinstance(v, Obj) and '__let__' in v.fields:
+            nm, o = v.fields['__let__'], t.id
+            env[o + '.__class__'] = v.cls
+            if v.cls == '_WindSock':
+                env[o + '.winds'], env[o + '.current'] = SymArr(f'{nm}.winds'), IntSym(f'{nm}.current')
+                env[o + '.next_range'], env[o + '._last_vector_cache'] = Num(f'{nm}.nextRange'), vec(f'{nm}.vec')
+                env[o + '._length'] = IntSym(f'({nm}.winds).size')
+            else:
+                for py, ln, kind in FILTER_FIELDS:
+                    env[f'{o}.{py}'] = Flg(f'{nm}.{ln}') if kind == 'flg' else vec(f'{nm}.{ln}') if kind == 'vec' else Num(f'{nm}.{ln}')
+            return
         if isinstance(t, ast.Name):
             env[t.id] = v
             return
@@ -1808,6 +1834,56 @@ def emit_lookup(ev):
     return '\n'.join(out)
 
 
+def emit_loop_init(ev):
+    """the statements of `_integrate` BEFORE the loop (the loop state it starts from) and AFTER it (the row appended when fewer than two
+    rows were recorded), executed symbolically; the two helper objects are built by their separately translated constructors"""
+    f = ev.method('TrajectoryCalc', '_integrate')
+    k = [i for i, n in enumerate(f.body) if isinstance(n, ast.While)][0]
+    pre = [n for n in f.body[:k] if not (isinstance(n, ast.Expr) and isinstance(n.value, ast.Constant))]
+    # the three local copies of the limits are read in the loop only
+    pre = [n for n in pre if not (isinstance(n, ast.Assign) and isinstance(n.targets[0], ast.Name) and n.targets[0].id.startswith('_c'))]
+    env = {'self.__class__': 'TrajectoryCalc', 'self.muzzle_velocity': Num('r.muzzleVelocity'), 'self.cant_cosine': Num('r.cantCos'),
+           'self.cant_sine': Num('r.cantSin'), 'self.sight_height': Num('r.sightHeight'), 'self.barrel_elevation': Num('barrelElevation'),
+           'self.barrel_azimuth': Num('r.barrelAzimuth'), 'self.calc_step': Num('r.cfg.calcStep'), 'self.look_angle': Num('r.proj.lookAngle'),
+           'shot_info.winds': SymArr('r.winds'), 'filter_flags': Flg('filterFlags'), 'record_step': Num('recordStep'), 'time_step': Num('timeStep')}
+    ev.lets, ev.compose_rows = [], True
+    try:
+        if ev.block(pre, env) is not None:
+            raise Unsupported('return before the loop')
+        if not (isinstance(env.get('ranges'), Lst) and not env['ranges'].items):
+            raise Unsupported('the list of rows does not start empty')
+        v3 = lambda v: f'⟨{num(v.x)}, {num(v.y)}, {num(v.z)}⟩'   # noqa: E731
+        w = {kk[len('wind_sock.'):]: v for kk, v in env.items() if kk.startswith('wind_sock.') and kk != 'wind_sock.__class__'}
+        ws = sock_state({'self.' + kk: v for kk, v in w.items()}, True).replace('maxDist := maxDist', 'maxDist := cMaxWindDistanceFeet')
+        flt = filter_state({('self.' + kk[len('data_filter.'):]): v for kk, v in env.items() if kk.startswith('data_filter.')} | {'self.__class__': 'x'})
+        lets = ''.join(f'let {n} := {t}\n  ' for n, t in ev.lets)
+        out = ('/-- the loop state `_integrate` enters its `while` loop with -/\n'
+               'def loop_init (r : Model.Run α) (barrelElevation recordStep timeStep : α) (filterFlags : Model.Flags) : Model.LoopSt α :=\n  ' + lets
+               + '{ s := ⟨' + v3(env['range_vector']) + ', ' + v3(env['velocity_vector']) + ', ' + num(env['time']) + '⟩, ws := ' + ws + ',\n    flt := ' + flt
+               + ',\n    rows := [], drag := ' + num(env['drag']) + ', mach := ' + num(env['mach']) + ', density := ' + num(env['density_factor'])
+               + ', speed := ' + num(env['velocity']) + ', lastX := ' + num(env['last_x']) + ' }\n')
+        # after the loop
+        post = [n for n in f.body[k + 1:] if not (isinstance(n, ast.Expr) and isinstance(n.value, ast.Call) and (ev.dotted(n.value.func) or '').startswith('logger.'))]
+        if len(post) != 2 or not isinstance(post[0], ast.If) or ast.dump(post[0].test) != ast.dump(ast.parse('len(ranges) < 2').body[0].value) \
+                or post[0].orelse or ast.dump(post[1]) != ast.dump(ast.parse('return ranges').body[0]) or len(post[0].body) != 1:
+            raise Unsupported('the statements after the loop changed shape')
+        app = post[0].body[0]
+        if not (isinstance(app, ast.Expr) and isinstance(app.value, ast.Call) and ev.dotted(app.value.func) == 'ranges.append' and len(app.value.args) == 1):
+            raise Unsupported('the statement after the loop does not append a row')
+        e2 = {'self.__class__': 'TrajectoryCalc', 'self.look_angle': Num('r.proj.lookAngle'), 'self.weight': Num('r.proj.weight'),
+              'self.stability_coefficient': Num('r.proj.stability'), 'self.twist': Num('r.proj.twist'),
+              'range_vector': vec('l.s.pos'), 'velocity_vector': vec('l.s.vel'), 'time': Num('l.s.time'), 'drag': Num('l.drag'), 'mach': Num('l.mach'),
+              'density_factor': Num('l.density'), 'velocity': Num('l.speed')}
+        row = ev.ev(app.value.args[0], e2)
+        if not isinstance(row, RowV):
+            raise Unsupported('the statement after the loop does not append a row')
+        out += ('\n/-- the row `_integrate` appends after the loop when fewer than two rows were recorded -/\n'
+                'def final_row (r : Model.Run α) (l : Model.LoopSt α) : Model.Row α :=\n  ' + row.s + '\n')
+    finally:
+        ev.lets, ev.compose_rows = [], False
+    return out
+
+
 def find_self_assign(ev, cls, meth, attr):
     m = ev.method(cls, meth)
     for n in ast.walk(m) if m else []:
@@ -1893,6 +1969,7 @@ def generate(repo: Path) -> str:
            'zero_correct', 'zero_fails', 'zero_result'], lambda: emit_zero(ev))
     group(['loop_body'], lambda: emit_loop_body(ev))
     group(['init_trajectory'], lambda: emit_init_trajectory(ev))
+    group(['loop_init', 'final_row'], lambda: emit_loop_init(ev))
     group(['apex_init', 'apex_cond', 'apex_rising', 'apex_move_right', 'apex_move_left', 'lookup_distance_cond', 'lookup_time_cond',
            'lookup_time_key', 'lookup_within_deviation', 'lookup_before_is_nearer'], lambda: emit_lookup(ev))
     group(['danger_half', 'danger_begin_danger_hit', 'danger_end_danger_hit'], lambda: emit_danger(ev))
